@@ -308,7 +308,8 @@ def check_observer(case):
             fails.append(("glyph-classes-mirror-categories", f"GlyphClassDef {got}, expected {want}"))
     # (G2) ligature carets == increasing distinct rounded caret coordinates of the exported glyphs (unless the user wrote carets)
     if not case.get("user_carets"):
-        wantc = expected_carets(case)
+        # coordinates that collide after rounding are stored once in the compiled LigGlyph (the writer lists both, feaLib/otlLib merges them)
+        wantc = {g: sorted(set(cs)) for g, cs in expected_carets(case).items()}
         gotc = {}
         if gdef is not None and gdef.LigCaretList is not None:
             for g, lg in zip(gdef.LigCaretList.Coverage.glyphs, gdef.LigCaretList.LigGlyph):
